@@ -286,36 +286,21 @@ theorem bytes_len_sum (m : Map) : bytesLen m = (m.map composeLen).sum := by
 private theorem lenBytes_length (ext : Bool) (n : Nat) : (lenBytes ext n).length = if ext then 2 else 1 := by
   cases ext <;> simp [lenBytes]
 
-/-- EXTENDED_LEN of an `Unimplemented` attribute agrees with the size of its value -/
-def ExtConsistent (a : Attr) : Prop :=
-  a.kind = .unimpl → isExt (a.flags ||| 32) = decide (255 < a.value.length)
-
-/-- `compose_len` is the number of bytes `compose` writes, for typed and `Invalid` attributes
-always, for `Unimplemented` ones when the received EXTENDED_LEN flag fits the value length
-(otherwise it is not: F7, property C07) -/
-theorem compose_length (a : Attr) (h : ExtConsistent a) : (compose a).length = composeLen a := by
+/-- `compose_len` is the number of bytes `compose` writes, for all three families of variants
+(for `Unimplemented` since the repair of F7, property C07: the length field is sized by the
+value, not by the received EXTENDED_LEN flag) -/
+theorem compose_length (a : Attr) : (compose a).length = composeLen a := by
   unfold compose composeLen
-  cases hk : a.kind
-  · simp [lenBytes_length]; split <;> omega
-  · have := h hk
-    simp [lenBytes_length, this]; split <;> omega
-  · simp [lenBytes_length]; split <;> omega
+  cases hk : a.kind <;> simp [lenBytes_length] <;> split <;> omega
 
-/-- the exclusion is needed: an unrecognised attribute received with EXTENDED_LEN on a
-2-byte value reports 5 bytes and writes 6 -/
-theorem compose_length_needs_consistency :
-    ∃ a : Attr, (compose a).length ≠ composeLen a :=
-  ⟨⟨.unimpl, 99, 0xD0, [1, 2]⟩, by decide⟩
-
-/-- **bytes_len_sum** against the bytes actually written (`_partial`: Unimplemented attributes
-whose EXTENDED_LEN flag contradicts their length are excluded – F7 / C07) -/
-theorem bytes_len_composed_partial (m : Map) (h : ∀ a ∈ m, ExtConsistent a) :
+/-- **bytes_len_sum** against the bytes actually written, for every map -/
+theorem bytes_len_composed (m : Map) :
     bytesLen m = (m.map fun a => (compose a).length).sum := by
   rw [bytes_len_sum]
   congr 1
   apply List.map_congr_left
-  intro a ha
-  exact (compose_length a (h a ha)).symm
+  intro a _
+  exact (compose_length a).symm
 
 private theorem sum_ins (a : Attr) (m : Map) (hs : Sorted m) :
     ((ins a m).map composeLen).sum + ((lookup a.code m).map composeLen).getD 0
